@@ -58,4 +58,131 @@ theorem blockJoin_regenerated (h : Gen.Code.blockJoin_extracted = true) (b : Blo
        go_norm
        go_close)
 
+/-! ### T1: tb.New, Block.Apply -/
+
+/-- `forRange_fold_inv` (Core) whose body may also use that the element variable is `data[k]` -/
+theorem forRange_fold_elem {β σ : Type} (P : σ → Prop) (data : List β) (step : σ → Nat → σ) (body : Int → β → σ → R σ)
+    (hP : ∀ (k : Nat) (s : σ), k < data.length → P s → P (step s k))
+    (hbody : ∀ (k : Nat) (x : β) (s : σ) (hk : k < data.length), x = data[k] → P s → body (k : Int) x s = pure (step s k)) :
+    ∀ (xs pre : List β) (s : σ), data = pre ++ xs → P s →
+      Go.forRangeAux body (pre.length : Int) xs s = pure ((List.range' pre.length xs.length).foldl step s) := by
+  intro xs
+  induction xs with
+  | nil => intro pre s _ _; rfl
+  | cons x xs ih =>
+    intro pre s hc hs
+    have hk : pre.length < data.length := by rw [hc]; simp
+    have hx : x = data[pre.length] := by subst hc; simp
+    rw [Go.forRangeAux, hbody pre.length x s hk hx hs, pure_bind]
+    have := ih (pre ++ [x]) (step s pre.length) (by simp [hc]) (hP _ _ hk hs)
+    simp only [List.length_append, List.length_cons, List.length_nil, Nat.zero_add, Int.natCast_add, Int.cast_ofNat_Int] at this
+    rw [this]
+    simp [List.range'_succ]
+
+/-- the copy loop of `tb.New`: `for i := range lines { bl.Lines[i] = lines[i] }` into a block with as many lines -/
+theorem forRange_copy_block (ls : List (List α)) (body : Int → List α → Block α → R (Block α))
+    (hbody : ∀ (k : Nat) (x : List α) (b : Block α) (hk : k < ls.length), x = ls[k] → b.lines.length = ls.length →
+      body (k : Int) x b = pure { b with lines := b.lines.set k ls[k] })
+    (b0 : Block α) (h0 : b0.lines.length = ls.length) :
+    Go.forRangeM ls body b0 = pure { b0 with lines := ls } := by
+  have h := forRange_fold_elem (fun b : Block α => b.lines.length = ls.length) ls
+    (fun b k => { b with lines := b.lines.set k (ls.getD k []) }) body (by intro k s _ hs; simpa using hs)
+    (by intro k x s hk hx hs
+        rw [hbody k x s hk hx hs]
+        simp [List.getD_eq_getElem?_getD, hk]) ls [] b0 rfl h0
+  simp only [List.length_nil, Int.natCast_zero, ← List.range_eq_range'] at h
+  rw [Go.forRangeM, h]
+  congr 1
+  have hf : ∀ (n : Nat) (b : Block α), (List.range n).foldl (fun (b : Block α) k => { b with lines := b.lines.set k (ls.getD k []) }) b =
+      { b with lines := (List.range n).foldl (fun c j => c.set j (ls.getD j [])) b.lines } := by
+    intro n
+    induction n with
+    | zero => intro b; rfl
+    | succ n ih => intro b; simp only [List.range_succ, List.foldl_append, List.foldl_cons, List.foldl_nil, ih]
+  rw [hf]
+  have hm := foldl_set_range_eq_map (fun j _ => ls.getD j ([] : List α)) [] b0.lines
+  rw [h0] at hm
+  rw [hm, map_range_getD]
+
+theorem makeSlice_nat {β : Type} (n : Nat) (z : β) : Go.makeSlice (n : Int) z = pure (List.replicate n z) := by
+  unfold Go.makeSlice
+  rw [if_neg (by omega)]
+  simp
+
+theorem blockNew_regenerated (h : Gen.Code.blockNew_extracted = true) (text sep : List α) :
+    Gen.Code.blockNew cx text sep = pure (Block.new text sep) := by
+  first
+    | exact absurd h (by decide)
+    | (unfold Gen.Code.blockNew Block.new
+       go_norm
+       split
+       · rfl
+       · rename_i hs
+         have hne := splitOn_ne_nil text sep (Or.inl hs)
+         generalize splitOn text sep = L at *
+         -- the copy loop, whatever the list and the flag are
+         have hcopy : ∀ (ls : List (List α)) (body : Int → List α → Block α → R (Block α)) (tr : Bool),
+             (∀ (k : Nat) (x : List α) (b : Block α) (hk : k < ls.length), x = ls[k] → b.lines.length = ls.length →
+               body (k : Int) x b = pure { b with lines := b.lines.set k ls[k] }) →
+             (Go.makeSlice (ls.length : Int) ([] : List α) >>= fun t5 =>
+               Go.forRangeM ls body { lines := t5, sep := sep, trailing := tr }) =
+               pure ({ lines := ls, sep := sep, trailing := tr } : Block α) := by
+           intro ls body tr hb
+           rw [makeSlice_nat, pure_bind, forRange_copy_block ls body hb _ (by simp)]
+         have hl : (L.getLast? == some []) = decide (L.getLast hne = []) := by
+           rw [List.getLast?_eq_some_getLast hne]
+           by_cases hx : L.getLast hne = [] <;> simp [hx]
+         -- everything before the loop is free of panics once `lines` is known to be non-empty
+         simp only [idx_last L hne, sliceTo_dropLast L hne, pure_bind, bind_assoc, ite_pure, hl]
+         rw [hcopy]
+         · go_close
+         · intro k x b hk hx hlen
+           subst hx
+           simp only [idx_nat _ k hk, pure_bind, bind_assoc, Go.sliceSet]
+           rw [if_pos ⟨Int.natCast_nonneg k, by rw [Int.toNat_natCast, hlen]; exact hk⟩]
+           simp only [pure_bind, Int.toNat_natCast])
+
+/-- the loop of `Block.Apply`: `for idx, line := range xs { applied = append(applied, f(idx, line)...) }` -/
+theorem forRange_append_mapM {β γ : Type} (g : Int → β → R (List γ)) (d : β) : ∀ (xs pre : List β) (acc : List γ),
+    Go.forRangeAux (fun i x acc => g i x >>= fun t => pure (acc ++ t)) (pre.length : Int) xs acc =
+      (List.range' pre.length xs.length).mapM (fun (i : Nat) => g (i : Int) ((pre ++ xs).getD i d)) >>= fun outs =>
+        pure (acc ++ outs.flatten) := by
+  intro xs
+  induction xs with
+  | nil => intro pre acc; simp [Go.forRangeAux]
+  | cons x xs ih =>
+    intro pre acc
+    simp only [Go.forRangeAux, List.length_cons, List.range'_succ, List.mapM_cons, bind_assoc, pure_bind]
+    have h1 : (pre ++ x :: xs).getD pre.length d = x := by simp [List.getD_eq_getElem?_getD]
+    rw [h1]
+    refine bind_congr (m := R) fun y => ?_
+    have := ih (pre ++ [x]) (acc ++ y)
+    simp only [List.length_append, List.length_cons, List.length_nil, Nat.zero_add, Int.natCast_add, Int.cast_ofNat_Int,
+      List.append_assoc, List.cons_append, List.nil_append] at this
+    rw [this]
+    simp [List.append_assoc]
+
+theorem forRangeAux_congr {β σ : Type} (body body' : Int → β → σ → R σ) (hb : ∀ i x s, body i x s = body' i x s)
+    (k : Int) (xs : List β) (s : σ) : Go.forRangeAux body k xs s = Go.forRangeAux body' k xs s := by
+  have : body = body' := by funext i x s; exact hb i x s
+  rw [this]
+
+/-- Go's callback takes an `int` index, may panic, and may return any number of lines -/
+theorem blockApply_regenerated (h : Gen.Code.blockApply_extracted = true) (b : Block α)
+    (f : Int → List α → R (List (List α))) :
+    Gen.Code.blockApply cx b f = (do
+      let outs ← (List.range b.lines.length).mapM (fun (i : Nat) => f (i : Int) (b.lines.getD i []))
+      pure { b with lines := outs.flatten }) := by
+  first
+    | exact absurd h (by decide)
+    | (unfold Gen.Code.blockApply
+       go_norm
+       have key := forRange_append_mapM f ([] : List α) b.lines [] []
+       simp only [List.length_nil, List.nil_append, Int.natCast_zero, ← List.range_eq_range'] at key
+       simp only [Go.forRangeM]
+       rw [forRangeAux_congr _ (fun i x acc => f i x >>= fun t => pure (acc ++ t))
+         (by intro i x acc
+             refine bind_congr (m := R) fun t => ?_
+             go_close), key]
+       simp only [bind_assoc, pure_bind])
 end RosedVerif.GenCodeEq
